@@ -5,54 +5,10 @@ from resmod import *
 from c15 import arm_regions
 
 
-def run(ctx):
+def check_lock_unlock_delta(ctx):
+    """lock moves exactly the shortfall out of the liquid part, unlock returns exactly the released delta (shared with C09: a wrong delta
+    creates or destroys tokens inside a transaction)"""
     F = ctx.F
-    ctx.rule("T4: locked-balance substates (vault and bucket, fungible and non-fungible) are written only by lock_*/unlock_*; liquid "
-             "substates only by internal_take*/internal_put (+ lock_fee); so no withdraw/burn/recall path can touch locked value")
-    n = check_owner_table(ctx, "owner", r"Locked|Balance|Liquid")
-    ctx.floor("owner-table-sites", n, 20)
-    # take/recall/burn paths reach value only through internal_take*
-    for bp, fns in ((FV, ["take_advanced", "recall", "burn", "take"]), (NV, ["take_advanced", "take_non_fungibles", "recall", "recall_non_fungibles", "burn_non_fungibles", "take"])):
-        for fn in fns:
-            name = f"{bp}::{fn}"
-            if name not in F.fns:
-                continue
-            bodies = ctx.bodies_of(name)
-            direct = [c[0] for x in bodies for c in x.fn.calls if re.search(r"::(field_write_typed|field_read_typed|actor_open_field)$", c[0])]
-            opens_locked = any("LockedBalance" in v or "LockedResource" in v or "LockedNonFungible" in v for x in bodies for v in x.fn.vars)
-            ctx.ob(f"withdraw-path|{bp.rsplit('::',1)[1]}::{fn}|no-locked-access", not opens_locked,
-                   f"{fn} mentions a Locked* field: {opens_locked} (direct state calls: {sorted(set(d.split('::')[-1] for d in direct))})", F.fns[name].loc())
-
-    ctx.rule("T8: proof clone locks with the LOCK ident and proof teardown unlocks with the mirrored UNLOCK ident, per LocalRef variant; "
-             "on_drop reaches teardown")
-    PAIRS = {
-        "fungible::fungible_proof::FungibleProofSubstate": {"Bucket": ("FUNGIBLE_BUCKET_LOCK_AMOUNT_IDENT", "FUNGIBLE_BUCKET_UNLOCK_AMOUNT_IDENT"),
-                                                            "Vault": ("FUNGIBLE_VAULT_LOCK_FUNGIBLE_AMOUNT_IDENT", "FUNGIBLE_VAULT_UNLOCK_FUNGIBLE_AMOUNT_IDENT")},
-        "non_fungible::non_fungible_proof::NonFungibleProofSubstate": {"Bucket": ("NON_FUNGIBLE_BUCKET_LOCK_NON_FUNGIBLES_IDENT", "NON_FUNGIBLE_BUCKET_UNLOCK_NON_FUNGIBLES_IDENT"),
-                                                                       "Vault": ("NON_FUNGIBLE_VAULT_LOCK_NON_FUNGIBLES_IDENT", "NON_FUNGIBLE_VAULT_UNLOCK_NON_FUNGIBLES_IDENT")},
-    }
-    for ty, table in PAIRS.items():
-        for fn, col in (("clone_proof", 0), ("teardown", 1)):
-            name = R + ty + "::" + fn
-            if not ctx.anchor(name):
-                continue
-            b = ctx.body(name)
-            gs = b.enum_guards(r"proof_common::LocalRef$")
-            ctx.ob(f"{ty.split('::')[-1]}::{fn}|match-on-LocalRef", len(gs) >= 1 and all(ow is None for _, _, ow, _ in gs), f"{len(gs)} exhaustive match(es) on LocalRef", b.loc())
-            for bb, ed, ow, si in gs:
-                ex = arm_regions(b, bb, ed)
-                for var, idents in table.items():
-                    cs = {c.rsplit("::", 1)[1] for c in consts_in_blocks(b, ex.get(var, ()))}
-                    want = idents[col]
-                    other = {i for v2, ids in table.items() for i in ids} - {want}
-                    ctx.ob(f"{ty.split('::')[-1]}::{fn}|{var}-ident", want in cs and not (cs & other),
-                           f"{var} arm uses {sorted(c for c in cs if c.endswith('_IDENT'))}, expected {want}", b.loc(bb))
-            ctx.ob(f"{ty.split('::')[-1]}::{fn}|calls-method", bool(b.calls(r"::call_method$")), f"{fn} invokes the container", b.loc())
-        bp = R + ty.replace("Substate", "Blueprint") + "::on_drop"
-        if ctx.anchor(bp):
-            b = ctx.body(bp)
-            check_guarded(ctx, f"{ty.split('::')[-1]}|on_drop-teardown", b, b.ok_exits(), [G_try(re.escape(R + ty) + r"::teardown$")], "Ok(()) of on_drop")
-
     ctx.rule("T2: lock_amount moves the shortfall out of the liquid balance (internal_take) and unlock_amount returns the released delta "
              "(internal_put of LiquidFungibleResource::new(delta)); divisibility is checked before locking/taking")
     for bp in (FV, FB):
@@ -111,6 +67,57 @@ def run(ctx):
             ok = bool(puts) and all(any(x.endswith("LiquidFungibleResource::new") for x in origin_names(b, t["args"][0])) and
                                     any("checked_sub" in x for x in origin_names(b, t["args"][0], deep=True)) for _, t in puts)
             ctx.ob(f"{bp.rsplit('::',1)[1]}::unlock_amount|returns-delta-to-liquid", ok, "unlock_amount ends in internal_put(LiquidFungibleResource::new(max_locked - locked))", b.loc())
+
+
+def run(ctx):
+    F = ctx.F
+    ctx.rule("T4: locked-balance substates (vault and bucket, fungible and non-fungible) are written only by lock_*/unlock_*; liquid "
+             "substates only by internal_take*/internal_put (+ lock_fee); so no withdraw/burn/recall path can touch locked value")
+    n = check_owner_table(ctx, "owner", r"Locked|Balance|Liquid")
+    ctx.floor("owner-table-sites", n, 20)
+    # take/recall/burn paths reach value only through internal_take*
+    for bp, fns in ((FV, ["take_advanced", "recall", "burn", "take"]), (NV, ["take_advanced", "take_non_fungibles", "recall", "recall_non_fungibles", "burn_non_fungibles", "take"])):
+        for fn in fns:
+            name = f"{bp}::{fn}"
+            if name not in F.fns:
+                continue
+            bodies = ctx.bodies_of(name)
+            direct = [c[0] for x in bodies for c in x.fn.calls if re.search(r"::(field_write_typed|field_read_typed|actor_open_field)$", c[0])]
+            opens_locked = any("LockedBalance" in v or "LockedResource" in v or "LockedNonFungible" in v for x in bodies for v in x.fn.vars)
+            ctx.ob(f"withdraw-path|{bp.rsplit('::',1)[1]}::{fn}|no-locked-access", not opens_locked,
+                   f"{fn} mentions a Locked* field: {opens_locked} (direct state calls: {sorted(set(d.split('::')[-1] for d in direct))})", F.fns[name].loc())
+
+    ctx.rule("T8: proof clone locks with the LOCK ident and proof teardown unlocks with the mirrored UNLOCK ident, per LocalRef variant; "
+             "on_drop reaches teardown")
+    PAIRS = {
+        "fungible::fungible_proof::FungibleProofSubstate": {"Bucket": ("FUNGIBLE_BUCKET_LOCK_AMOUNT_IDENT", "FUNGIBLE_BUCKET_UNLOCK_AMOUNT_IDENT"),
+                                                            "Vault": ("FUNGIBLE_VAULT_LOCK_FUNGIBLE_AMOUNT_IDENT", "FUNGIBLE_VAULT_UNLOCK_FUNGIBLE_AMOUNT_IDENT")},
+        "non_fungible::non_fungible_proof::NonFungibleProofSubstate": {"Bucket": ("NON_FUNGIBLE_BUCKET_LOCK_NON_FUNGIBLES_IDENT", "NON_FUNGIBLE_BUCKET_UNLOCK_NON_FUNGIBLES_IDENT"),
+                                                                       "Vault": ("NON_FUNGIBLE_VAULT_LOCK_NON_FUNGIBLES_IDENT", "NON_FUNGIBLE_VAULT_UNLOCK_NON_FUNGIBLES_IDENT")},
+    }
+    for ty, table in PAIRS.items():
+        for fn, col in (("clone_proof", 0), ("teardown", 1)):
+            name = R + ty + "::" + fn
+            if not ctx.anchor(name):
+                continue
+            b = ctx.body(name)
+            gs = b.enum_guards(r"proof_common::LocalRef$")
+            ctx.ob(f"{ty.split('::')[-1]}::{fn}|match-on-LocalRef", len(gs) >= 1 and all(ow is None for _, _, ow, _ in gs), f"{len(gs)} exhaustive match(es) on LocalRef", b.loc())
+            for bb, ed, ow, si in gs:
+                ex = arm_regions(b, bb, ed)
+                for var, idents in table.items():
+                    cs = {c.rsplit("::", 1)[1] for c in consts_in_blocks(b, ex.get(var, ()))}
+                    want = idents[col]
+                    other = {i for v2, ids in table.items() for i in ids} - {want}
+                    ctx.ob(f"{ty.split('::')[-1]}::{fn}|{var}-ident", want in cs and not (cs & other),
+                           f"{var} arm uses {sorted(c for c in cs if c.endswith('_IDENT'))}, expected {want}", b.loc(bb))
+            ctx.ob(f"{ty.split('::')[-1]}::{fn}|calls-method", bool(b.calls(r"::call_method$")), f"{fn} invokes the container", b.loc())
+        bp = R + ty.replace("Substate", "Blueprint") + "::on_drop"
+        if ctx.anchor(bp):
+            b = ctx.body(bp)
+            check_guarded(ctx, f"{ty.split('::')[-1]}|on_drop-teardown", b, b.ok_exits(), [G_try(re.escape(R + ty) + r"::teardown$")], "Ok(()) of on_drop")
+
+    check_lock_unlock_delta(ctx)
     DIV = G_bool_call(r"resource::.*check_fungible_amount$|::check_fungible_amount$", True)
     for name, target in ((FV + "::create_proof_of_amount", re.escape(FV) + r"::lock_amount$"), (FV + "::take_advanced", re.escape(FV) + r"::internal_take$"),
                          (FB + "::create_proof_of_amount", re.escape(FB) + r"::lock_amount$"), (FB + "::take_advanced", re.escape(FB) + r"::internal_take$")):
